@@ -60,6 +60,11 @@ type expT struct {
 }
 
 type canonT struct {
+	// CLink: the link table of the canonical fully linked state; RB / RBVR: link table and
+	// ValidateReferences verdict of the tree rebuilt from its description (one ApplySelf on the root)
+	CLink map[string]string `json:"clink"`
+	RB    map[string]string `json:"rb"`
+	RBVR  bool              `json:"rbvr"`
 	NsTab map[string]string `json:"nstab"`
 	K     int               `json:"k"`
 	Inl   []*T              `json:"inl"`
@@ -86,11 +91,11 @@ type caseT struct {
 	Skip   []string        `json:"skip"`
 	// SkipLoops: leave out the inputs that lead a chain of single-property shorthands back to
 	// its start (set by the orchestrator after such an input killed the process once)
-	SkipLoops bool `json:"skip_loops"`
-	Seed   int64           `json:"seed"`
-	Size   int             `json:"size"`
-	N      int             `json:"n"`
-	Deep   []int           `json:"deep"`
+	SkipLoops bool  `json:"skip_loops"`
+	Seed      int64 `json:"seed"`
+	Size      int   `json:"size"`
+	N         int   `json:"n"`
+	Deep      []int `json:"deep"`
 }
 
 type mismatch struct {
@@ -122,13 +127,15 @@ func (r *resT) add(drift bool, sig map[string]any, detail map[string]any) {
 // ---------------------------------------------------------------- a session: one tree being driven
 
 type session struct {
-	tree    *T
-	ext     map[string]*T
-	w       *world
-	extW    map[string]*schema.ScopeSchema
-	refTags []string
-	sites   map[string]site
-	inTree  map[string]bool // scope tags of the tree proper (not of the external scopes)
+	tree        *T
+	ext         map[string]*T
+	w           *world
+	extW        map[string]*schema.ScopeSchema
+	refTags     []string
+	sites       map[string]site
+	inTree      map[string]bool // scope tags of the tree proper (not of the external scopes)
+	treeObj     map[string]bool // object tags of the tree proper
+	treeRefTags []string
 }
 
 func newSession(tree *T, ext map[string]*T) *session {
@@ -138,8 +145,15 @@ func newSession(tree *T, ext map[string]*T) *session {
 	for g := range s.w.scopeAST {
 		s.inTree[g] = true
 	}
+	s.treeObj = map[string]bool{}
+	for g := range s.w.objAST {
+		s.treeObj[g] = true
+	}
 	var st []site
 	refSites(tree, nil, "", &st)
+	for _, x := range st {
+		s.treeRefTags = append(s.treeRefTags, x.ref.Tag)
+	}
 	for _, name := range sortedKeys(ext) {
 		s.w.index(ext[name])
 		refSites(ext[name], nil, "", &st)
@@ -310,6 +324,13 @@ func replayAndJudge(res *resT, c *caseT, hist []actT, last *nextT, st *stateT) {
 
 type pair struct {
 	orig, inl *schema.ScopeSchema
+	rb        *schema.ScopeSchema // the tree rebuilt from its own description (nil: not available)
+	rbJudge   bool                // its values are comparable (map-based objects only)
+	rbSelf    map[string]string   // rebuilt: observed links after UnserializeScope
+	rbSelfVR  bool
+	rbNS      map[string]string // rebuilt: observed links after the canonical namespaces
+	rbNSVR    bool
+	sites     map[string]site
 	late      bool // evaluating the inputs that were put off because they may recurse forever
 }
 
@@ -365,7 +386,95 @@ func buildPair(res *resT, tree *T, ext map[string]*T, nstab map[string]string, k
 			map[string]any{"phase": "inlined", "error": err.Error()})
 		return nil, inl
 	}
-	return &pair{orig: top, inl: itop}, inl
+	p := &pair{orig: top, inl: itop, sites: s.sites}
+	p.rebuild(res, s, tree, nstab)
+	return p, inl
+}
+
+// rebuild: the same tree received as a description. SelfSerialize -> UnserializeScope applies the
+// root scope to itself once; nothing was constructed scope by scope.
+func (p *pair) rebuild(res *resT, s *session, tree *T, nstab map[string]string) {
+	var rb *schema.ScopeSchema
+	var err error
+	pi := sup.Guard(func() {
+		var desc any
+		if desc, err = p.orig.SelfSerialize(); err == nil {
+			rb, err = schema.UnserializeScope(desc)
+		}
+	})
+	if pi != nil || err != nil {
+		// whether a schema can be described and accepted back is C09/C10's business
+		msg := ""
+		if pi != nil {
+			msg = pi.Msg
+		} else {
+			msg = err.Error()
+		}
+		res.add(true, map[string]any{"op": "rebuild", "class": "not_describable"}, map[string]any{"error": msg})
+		return
+	}
+	w := newWorld(true)
+	w.index(tree)
+	for o, tag := range s.w.objTag { // the external objects are shared
+		if !s.treeObj[tag] {
+			w.objTag[o] = tag
+		}
+	}
+	if !w.mapRebuilt(tree, rb) {
+		res.add(true, map[string]any{"op": "rebuild", "class": "shape_differs"}, map[string]any{"note": "the rebuilt schema is not shaped like the tree"})
+		return
+	}
+	p.rbSelf = w.observe(s.treeRefTags)
+	p.rbSelfVR = rb.ValidateReferences() == nil
+	for _, ns := range sortedKeys(nstab) {
+		a := actT{Op: "ns", Scope: tree.Tag, NS: ns, Table: nstab[ns]}
+		if pi := sup.Guard(func() { rb.ApplyNamespace(s.extW[nstab[ns]].Objects(), ns) }); pi != nil {
+			sig := panicSig(a, pi)
+			sig["variant"] = "rebuilt"
+			res.add(false, sig, map[string]any{"act": a, "panic": pi.Msg, "phase": "rebuilt"})
+			return
+		}
+	}
+	p.rbNS = w.observe(s.treeRefTags)
+	p.rbNSVR = rb.ValidateReferences() == nil
+	p.rb = rb
+	p.rbJudge = mapBased(tree)
+}
+
+// judgeRebuilt compares the rebuilt tree's links with the specification's.
+func (p *pair) judgeRebuilt(res *resT, s map[string]site, c *canonT) {
+	if p.rbSelf == nil || c.RB == nil {
+		return
+	}
+	check := func(phase string, got, want map[string]string, gotVR, wantVR bool) {
+		for g, o := range got {
+			if want[g] == o {
+				continue
+			}
+			class := "wrong_object"
+			if o == "None" {
+				class = "not_linked"
+			} else if want[g] == "None" {
+				class = "linked_without_application"
+			}
+			refns := "self"
+			if s[g].ref.NS != "" {
+				refns = "external"
+			}
+			res.add(false, map[string]any{"op": "apply_self", "class": class, "refns": refns, "under": s[g].under, "variant": "rebuilt"},
+				map[string]any{"phase": phase, "ref": g, "expected": want[g], "observed": o,
+					"note": "tree rebuilt from its own description (SelfSerialize -> UnserializeScope)"})
+		}
+		if gotVR != wantVR {
+			res.add(false, map[string]any{"op": "validate_references", "class": fmt.Sprintf("verdict_%v_expected_%v", gotVR, wantVR), "variant": "rebuilt"},
+				map[string]any{"phase": phase, "links": got})
+		}
+		res.Evals++
+	}
+	check("after UnserializeScope", p.rbSelf, c.RB, p.rbSelfVR, c.RBVR)
+	if p.rbNS != nil {
+		check("after the namespaces", p.rbNS, c.CLink, p.rbNSVR, true)
+	}
 }
 
 type outcome struct {
@@ -420,6 +529,22 @@ func (p *pair) compare(res *resT, mkIn func() any, exp *expT, label map[string]a
 		res.add(false, map[string]any{"op": "unserialize", "class": "value_differs"},
 			merge(label, map[string]any{"scope": fmt.Sprintf("%#v", a.v), "inlined": fmt.Sprintf("%#v", b.v)}))
 		return a.ok, true
+	}
+	if p.rb != nil {
+		// the tree rebuilt from its description must behave like the tree it describes
+		c := guarded(func() (any, error) { return p.rb.Unserialize(mkIn()) })
+		res.Evals++
+		switch {
+		case c.pi != nil:
+			res.add(false, map[string]any{"op": "unserialize", "class": "panic", "frame": c.pi.Frame, "variant": "rebuilt"},
+				merge(label, map[string]any{"panic": c.pi.Msg}))
+		case c.ok != a.ok:
+			res.add(false, map[string]any{"op": "unserialize", "class": "accept_differs", "variant": "rebuilt"},
+				merge(label, map[string]any{"scope_ok": a.ok, "rebuilt_ok": c.ok, "scope_err": a.err, "rebuilt_err": c.err}))
+		case a.ok && p.rbJudge && !reflect.DeepEqual(a.v, c.v):
+			res.add(false, map[string]any{"op": "unserialize", "class": "value_differs", "variant": "rebuilt"},
+				merge(label, map[string]any{"scope": fmt.Sprintf("%#v", a.v), "rebuilt": fmt.Sprintf("%#v", c.v)}))
+		}
 	}
 	if exp != nil {
 		if exp.OK != a.ok {
@@ -566,6 +691,7 @@ func runTree(c *caseT) *resT {
 	if p == nil {
 		return res
 	}
+	p.judgeRebuilt(res, p.sites, c.Canon)
 	skip := map[string]bool{}
 	for _, s := range c.Skip {
 		skip[s] = true
